@@ -1856,4 +1856,55 @@ theorem parseUrl_printed (hnb : NoOddBracket p)
 
 end
 
+/-! ## netlocs without brackets need no side condition -/
+
+theorem hostname_no_colon (nl : Str) (hb : '[' ∉ nl) (h : Str) (hh : hostname nl = some h) :
+    ':' ∉ h := by
+  unfold hostname hostinfo at hh
+  simp only at hh
+  split at hh
+  · cases hh
+  · simp only [Option.some.injEq] at hh
+    have hsl := splitLast_spec nl '@'
+    have hsub0 : hostinfoStr nl ⊆ nl := by
+      unfold hostinfoStr
+      cases hui : (splitLast nl '@').1 with
+      | none => rw [hsl.2 hui]; exact fun x hx => hx
+      | some ui => intro x hx; rw [hsl.1 ui hui]; simp [hx]
+    have hnb : '[' ∉ hostinfoStr nl := fun hm => hb (hsub0 hm)
+    have hps : (hostPortStr (hostinfoStr nl)).1 = (splitFirst (hostinfoStr nl) ':').1 := by
+      unfold hostPortStr
+      rw [splitFirst_notMem_s20 _ _ hnb]
+    have hc : ':' ∉ (hostPortStr (hostinfoStr nl)).1 := by
+      rw [hps]; exact (splitFirst_spec_s20 _ ':').1
+    rw [← hh]
+    exact (lowerOf_lowerHost _ _ (fun x hx => hx)).not_mem hc (by decide)
+
+section
+variable {puny : Str → Str} (hpc : PunyClean puny) (quoted sf : Bool) {S rest : Str} {p : Parsed}
+  (h : FromParse S rest p)
+include hpc h
+
+/-- a netloc without brackets (any registered name or IPv4 host, any userinfo) meets both
+side conditions of `parseUrl_printed` -/
+theorem side_conditions_of_no_bracket (hb : '[' ∉ p.netloc ∧ ']' ∉ p.netloc) :
+    NoOddBracket p ∧ ':' ∉ strOf (canonComps puny quoted sf p).host := by
+  have hf := netlocFacts p.netloc
+  refine ⟨⟨?_, ?_, ?_⟩, ?_⟩
+  · intro u hu
+    have := (hf.user_sub u (by rw [← h.user]; exact hu)).1
+    exact ⟨fun hm => hb.1 (this hm), fun hm => hb.2 (this hm)⟩
+  · intro u hu
+    have := hf.pass_sub u (by rw [← h.pass]; exact hu)
+    exact ⟨fun hm => hb.1 (this hm), fun hm => hb.2 (this hm)⟩
+  · intro h0 hh
+    have := (hf.host_lower h0 (by rw [← h.host]; exact hh)).1
+    exact ⟨this.not_mem hb.1 (by decide), this.not_mem hb.2 (by decide)⟩
+  · intro hm
+    obtain ⟨h0, _, _, hh, hch⟩ := host_mem hpc quoted sf h hm
+    have := canonHost_bad puny hpc h0 (by decide) hch
+    exact hostname_no_colon p.netloc hb.1 h0 (by rw [← h.host]; exact hh) this
+
+end
+
 end Ural.CanonRoundTrip
